@@ -62,7 +62,7 @@ class Rel10Relocation(Relocation):
     def calc(self, sym_value, reloc_value):
         assert sym_value % 2 == 0
         offset = (sym_value - (align(reloc_value, 2)) - 2) >> 1
-        assert offset in range(-511, 511, 1), str(offset)
+        assert offset in range(-512, 512, 1), str(offset)
         return offset
 
 
